@@ -130,6 +130,8 @@ func add(c *ctor) *ctor {
 				c.deps[i].field = fmt.Sprintf("priv%d", i)
 			} else if c.deps[i].form == "FEmbedded" || c.deps[i].form == "FEmbeddedIgn" {
 				c.deps[i].field = fmt.Sprintf("E%d", i)
+			} else if c.deps[i].form == "FAnon" {
+				c.deps[i].field = c.deps[i].target // an embedded field is named after its type
 			} else {
 				c.deps[i].field = fmt.Sprintf("D%d", i)
 			}
@@ -339,6 +341,18 @@ func main() {
 	// one parameter object consuming two groups of ONE element type, and a single service next to a group of its type
 	sp(&ctor{name: "InGG_K0", inStyle: true, deps: []dep{{target: "K1", form: "FGroup", group: "g"}, {target: "K1", form: "FGroup", group: "h"}}, outs: simpleOut("K0"), hasErr: true})
 	sp(&ctor{name: "InSG_K0", inStyle: true, deps: []dep{mkDep("K1", "FPlain"), {target: "K1", form: "FGroup", group: "g"}}, outs: simpleOut("K0")})
+	// a parameter-object field carrying both a name and a group tag is filled with the group
+	// (the builder looks at the group tag first), so the group is what it depends on
+	sp(&ctor{name: "InNG_K0", inStyle: true, deps: []dep{{target: "K1", form: "FGroup", key: "x", group: "g"}}, outs: simpleOut("K0"), hasErr: true})
+	sp(&ctor{name: "InNG_S4", inStyle: true, deps: []dep{{target: "K2", form: "FGroup", key: "k", group: "g"}, mkDep("K1", "FOpt")}, outs: simpleOut("S4")})
+	// two fields of ONE Go type that are different services (two names; a name and none)
+	sp(&ctor{name: "InKK_K0", inStyle: true, deps: []dep{{target: "K1", form: "FKeyed", key: "a"}, {target: "K1", form: "FKeyed", key: "b"}}, outs: simpleOut("K0"), hasErr: true})
+	sp(&ctor{name: "InKU_K0", inStyle: true, deps: []dep{{target: "K1", form: "FKeyed", key: "k"}, mkDep("K1", "FPlain")}, outs: simpleOut("K0")})
+	sp(&ctor{name: "InUK_K2", inStyle: true, deps: []dep{mkDep("K3", "FPlain"), {target: "K3", form: "FKeyed", key: "k"}}, outs: simpleOut("K2")})
+	// anonymous (embedded) fields of a service type are parameters like any other exported field
+	sp(&ctor{name: "InAnon_K0", inStyle: true, deps: []dep{{target: "K1", form: "FAnon"}}, outs: simpleOut("K0"), hasErr: true})
+	sp(&ctor{name: "InAnon_S4", inStyle: true, deps: []dep{{target: "K2", form: "FAnon"}, mkDep("K3", "FPlain"), {target: "IK1", form: "FAnon"}}, outs: simpleOut("S4")})
+	sp(&ctor{name: "InAnon_K2", inStyle: true, deps: []dep{mkDep("K0", "FPlain"), {target: "K3", form: "FAnon"}}, outs: simpleOut("K2")})
 	writeTypes()
 	writeCtors()
 }
@@ -451,6 +465,8 @@ func writeCtors() {
 					embPriv = append(embPriv, d)
 				case "FEmbeddedIgn":
 					embIgn = append(embIgn, d)
+				case "FAnon":
+					fmt.Fprintf(&b, "\t%s%s\n", d.goType(), d.tag())
 				default:
 					fmt.Fprintf(&b, "\t%s %s%s\n", d.field, d.goType(), d.tag())
 				}
